@@ -227,7 +227,12 @@ func stable() string {
 }
 
 func runCase(d *desc, typ el.EventType, variant int) string {
-	v := runCaseInner(d, typ, variant)
+	v := runCaseInner(d, typ, variant, false)
+	if v == "" && variant < 3 {
+		if v = runCaseInner(d, typ, variant, true); v != "" {
+			v = "(event arrived with stale json bytes) " + v
+		}
+	}
 	if v == "" {
 		v = stable()
 	}
@@ -235,11 +240,16 @@ func runCase(d *desc, typ el.EventType, variant int) string {
 }
 
 // one case: payload descriptor x event type x node variant
-func runCaseInner(d *desc, typ el.EventType, variant int) string {
+func runCaseInner(d *desc, typ el.EventType, variant int, prefill bool) string {
 	created := time.Date(2024, 2, 29, 23, 59, 59, 123456789, time.FixedZone("X", 3*3600+1800))
 	payload := build(d)
 	twin := build(d)
 	e := &el.Event{Type: typ, CreatedAt: created, Formatted: map[string][]byte{}, Payload: payload}
+	if prefill {
+		// the event already carries bytes under the json format (an earlier
+		// formatter, a re-processed event): they must be replaced, not trusted
+		e.FormattedAs(el.JSONFormat, []byte("{\"stale\":true}\n"))
+	}
 	var node el.Node
 	wantForward, wantPredErr := true, false
 	switch variant {
@@ -268,7 +278,7 @@ func runCaseInner(d *desc, typ el.EventType, variant int) string {
 		if err == nil || out != nil {
 			return fmt.Sprintf("payload cannot be encoded but Process returned (%v, %v)", out, err)
 		}
-		if _, ok := e.Format(el.JSONFormat); ok {
+		if _, ok := e.Format(el.JSONFormat); ok && !prefill {
 			return "payload cannot be encoded but bytes were stored under the json format"
 		}
 		return ""
@@ -535,7 +545,7 @@ func main() {
 				return hk.ExploreJob(prop, job, deadline, ex, fmt.Sprintf("program %d nilTable=%v", k/2, k%2 == 1))
 			}
 		},
-		Rule: "payloads: every value of a JSON grammar with leaves {\"\", ascii, quotes/backslash/control characters, invalid UTF-8, <>& and U+2028, 2^53+1, -1, 1.5, nil, true, NaN, +Inf, chan, func, complex} in containers {map, slice of 1-2, struct with json tags incl. omitempty, pointer} nested up to depth 3 (level 3 sampled 1-in-7 in quick, complete in thorough) x event types {plain, quote+backslash, newline, unicode+html, control bytes + DEL + ESC, invalid UTF-8, unassigned / plane-14 / U+10FFFF runes} x {JSONFormatter, JSONFormatterFilter with predicate absent/true/false/error}. Oracle: one newline-terminated line, valid JSON with exactly created_at/event_type/payload decoding back to the creation time, the type and the JSON image computed from the descriptor; payload/type/time untouched; unencodable => (nil, err) and nothing stored; the bytes stored for the previously formatted event stay unchanged (no buffer reuse); forwarding truth tables incl. Filter. Event.FormattedAs/Format: 4 programs of 2-3 threads x 2 operations on 2 keys (with and without a pre-made table), ALL interleavings under the race detector, results must be linearizable to a last-writer-wins map (brute force).",
+		Rule: "payloads: every value of a JSON grammar with leaves {\"\", ascii, quotes/backslash/control characters, invalid UTF-8, <>& and U+2028, 2^53+1, -1, 1.5, nil, true, NaN, +Inf, chan, func, complex} in containers {map, slice of 1-2, struct with json tags incl. omitempty, pointer} nested up to depth 3 (level 3 sampled 1-in-7 in quick, complete in thorough) x event types {plain, quote+backslash, newline, unicode+html, control bytes + DEL + ESC, invalid UTF-8, unassigned / plane-14 / U+10FFFF runes} x {JSONFormatter, JSONFormatterFilter with predicate absent/true/false/error}. Oracle: one newline-terminated line, valid JSON with exactly created_at/event_type/payload decoding back to the creation time, the type and the JSON image computed from the descriptor; payload/type/time untouched; unencodable => (nil, err) and nothing stored; the bytes stored for the previously formatted event stay unchanged (no buffer reuse); every case also with an event that already carries stale bytes under the json format (they must be replaced); forwarding truth tables incl. Filter. Event.FormattedAs/Format: 4 programs of 2-3 threads x 2 operations on 2 keys (with and without a pre-made table), ALL interleavings under the race detector, results must be linearizable to a last-writer-wins map (brute force).",
 		Assumptions: []string{
 			"encoding/json's decoder is the independent reader of the emitted bytes; the expected image is computed from the value's descriptor, never by encoding the value",
 		},
